@@ -39,9 +39,11 @@
 (* Tolerance of the two linearity laws: 11 * k units of 10^-7 * mag, i.e.   *)
 (* 1.1e-6 relative to the signal magnitude times the conditioning allowance *)
 (* k >= 1 of the configuration (session constant, computed from the effect  *)
-(* parameters alone: sqrt of the number of rounding errors that are still   *)
-(* in the effect's memory, times its internal gain; derivation and formula  *)
-(* in checks/c13.py `conditioning`; k = 4 for the memoryless effects).      *)
+(* parameters alone: the rounding errors that are still in the effect's     *)
+(* memory - added in quadrature, plus a linear term for systematic ones -   *)
+(* times its internal gain; derivation and formula in checks/c13.py         *)
+(* `conditioning`; k = 4 for the memoryless effects; configurations with    *)
+(* k > KMAX are not checked for linearity at all).                          *)
 (* +2 on window samples because each of the three compared numbers is       *)
 (* rounded to a unit separately.  Everything else is exact (== on f32, +0   *)
 (* and -0 identified).                                                      *)
